@@ -204,6 +204,52 @@ func c05LibraryContexts(c C05Case, mask int, k, full interface{}, r *Rec) *Viola
 		}
 		return cc, e, nil
 	}
+	// a fetcher of the caller's that EMBEDS the library's map fetcher - which holds a value for every
+	// variable, stale ones for the unavailable - and overrides Cached with the truth: TryEval goes by
+	// the override (C04's premise is what Cached says, not what the map happens to hold)
+	{
+		um := *u
+		um.RegMode = RegUndefined
+		cc, e, v := compile(&um)
+		if v != nil {
+			return v
+		}
+		all := map[string]interface{}{}
+		for _, n := range names {
+			all[n] = u.Var(n).Val.X
+		}
+		w := &freshnessFetcher{MapVarFetcher: eval.NewMapVarFetcher(all), fresh: avail}
+		if v := check("caller-fetcher-embedding-the-map-fetcher", e, &eval.Ctx{VariableFetcher: w}, cc.VariableKeyMap); v != nil {
+			return v
+		}
+	}
+	// no variable at all: every variable replaced by its value. Such a program needs no fetcher, and
+	// gets none - a nil *Ctx, an empty Ctx
+	if mask != 15 {
+		t0 := c.Tree.Clone()
+		ok := true
+		t0.Walk(func(x *m.Node) {
+			if x.Kind == m.KVar {
+				x.Kind, x.Val, x.Name = m.KConst, u.Var(x.Name).Val.X, ""
+				if l, isInts := x.Val.([]int64); isInts && len(l) == 0 {
+					ok = false // (a typed empty list has no literal form)
+				}
+			}
+		})
+		if ok {
+			cc, _ := NewConfig(u, &Log{}, Build{Mask: mask})
+			src0 := m.Render(t0)
+			if e0, co := SafeCompile(cc, src0); co.Panic == nil && co.Err == nil {
+				for _, ctx := range []*eval.Ctx{nil, {}} {
+					o := Safe(func() (eval.Value, error) { return e0.TryEval(ctx) })
+					if o.Panic != nil || o.Err != nil || !m.EqualVal(o.Val, full) {
+						return Violf("C05: a program without variables, tried with %s, does not return its value\nconfig=%s\nsrc=%s\nTryEval=%v\nvalue=%s", map[bool]string{true: "a nil *Ctx", false: "an empty Ctx"}[ctx == nil], maskName(mask), src0, o, refString(full, nil))
+					}
+				}
+				r.Class("library-context:none-needed")
+			}
+		}
+	}
 	if len(availVals) == len(names) {
 		cc, e, v := compile(u)
 		if v != nil {
@@ -270,6 +316,14 @@ func c05LibraryContexts(c C05Case, mask int, k, full interface{}, r *Rec) *Viola
 	return check("slice-backed-from-the-smaller-config", eB, eval.NewCtxFromVars(ccA, availVals), ccB.VariableKeyMap)
 }
 
+// freshnessFetcher embeds the library's map fetcher and overrides Cached (a TTL / freshness wrapper).
+type freshnessFetcher struct {
+	eval.MapVarFetcher
+	fresh map[string]bool
+}
+
+func (f *freshnessFetcher) Cached(_ eval.VariableKey, name string) bool { return f.fresh[name] }
+
 func checkC05(c C05Case, r *Rec) *Violation {
 	u := &c.U
 	src := m.Render(c.Tree)
@@ -305,6 +359,9 @@ func checkC05(c C05Case, r *Rec) *Violation {
 		o := Safe(func() (eval.Value, error) { return e.TryEval(ctxSeq) })
 		if o.Panic != nil {
 			return Violf("C05: TryEval panics\n%s\n%v", describe(mask, e), o)
+		}
+		if len(log.KeyErrs) != 0 {
+			return Violf("C05: TryEval asks the fetcher under a wrong key (a registered variable goes by its key, an unregistered one by the UndefinedVarKey sentinel and its name): %v\n%s", log.KeyErrs, describe(mask, e))
 		}
 		if o.Err != nil {
 			return Violf("C05: TryEval returns an error although no sub-expression fails\n%s\n%v", describe(mask, e), o)
